@@ -416,6 +416,8 @@ def _requester_run(which, sched, b_rejects, ta, tb):
     from pynetdicom2 import applicationentity as AEm
     L.install(sim.SimClock(1000))
     ae = AEm.ClientAE('LOCAL', TS, 16384)
+    spy = L.EntityLock()
+    ae.lock = spy                    # the entity-wide lock every requester of this entity takes (copy_context_def_list)
 
     def svc_a(asce, ctx, *a):
         return ('svc', str(ctx.sop_class), ctx.id, str(ctx.supported_ts))
@@ -490,7 +492,7 @@ def _requester_run(which, sched, b_rejects, ta, tb):
             ctxs = sorted((k, str(v.sop_class), str(v.supported_ts)) for k, v in a.accepted_contexts.items())
             scu = sorted((str(k), v[0], str(v[1])) for k, v in a.sop_classes_as_scu.items())
             return (self.lr.wire(), ctxs, scu, a.max_pdu_length, self.out, self.lr.pump.err, self.lr.pump.state(),
-                    self.lr.sock.closed)
+                    self.lr.sock.closed, list(spy.waits))
     ra = Req('PEER_A', ta, False) if which in ('both', 'a') else None
     rb = Req('PEER_B', tb, b_rejects) if which in ('both', 'b') else None
     bit = 0
@@ -512,7 +514,8 @@ def _requester_run(which, sched, b_rejects, ta, tb):
              'transfer syntax and maximum length, peer B with the other syntax and maximum and (symbolic) rejects one '
              'class; steps (construct, request, look services up, C-ECHO, release) interleaved by an 8-bit schedule word '
              '(symbolic over all 256 values); every association\'s proposal, usable contexts, service look-ups, negotiated '
-             'length and exchange equal what they are when it runs alone (quick tier: schedule words 0..63)',
+             'length and exchange equal what they are when it runs alone (quick tier: schedule words 0..63); no requester waits for its '
+             'peer while it holds the entity-wide configuration lock that every other association needs (lock stand-in records such waits)',
       family={'b_rejects': [0, 1], 'swap': [0, 1]}, timeout=300, thorough_timeout=900)
 def requesters_interleaved(sw: int) -> bool:
     """
@@ -531,6 +534,8 @@ def requesters_interleaved(sw: int) -> bool:
         # sanity of the alone runs: A can use all three classes, B all or all but MR; the echo came back
         ok = ok and alone_a[5] is None and alone_b[5] is None and len(alone_a[1]) == 3 \
             and len(alone_b[1]) == (2 if b_rejects else 3) and ('echo', True, 77 + ta) in alone_a[4]
+        # no association waits for its peer while holding the lock that every other association of the entity needs
+        ok = ok and alone_a[8] == [] and alone_b[8] == [] and both_a[8] == [] and both_b[8] == []
         # requesting an association leaves the process-wide socket defaults alone (they apply to every other socket)
         from pynetdicom2 import fsm as _fsm
         ok = ok and _fsm.socket.getdefaulttimeout() is None
@@ -766,6 +771,16 @@ def explain(cname, args, famv):
         ids1, ids2 = _preempted_ids(args['j'], args['k'], args['m'], 2)
         return 'T1 suspended in call %d after %d instructions while T2 made %d calls: T1 got %r, T2 got %r' % (
             args['j'] + 1, args['k'], args['m'], ids1, ids2)
+    if cname == 'requesters_interleaved':
+        b_rejects, swap = bool(famv['b_rejects']), bool(famv['swap'])
+        ta, tb = (1, 0) if swap else (0, 1)
+        both_a, both_b = _requester_run('both', args['sw'], b_rejects, ta, tb)
+        alone_a, _ = _requester_run('a', 0, b_rejects, ta, tb)
+        _, alone_b = _requester_run('b', 0, b_rejects, ta, tb)
+        return 'each requested association must behave as when it runs alone (A: %s, B: %s); waits for the peer made while ' \
+               'holding the entity-wide lock: %r' % ('same' if both_a[:8] == alone_a[:8] else 'DIFFERS',
+                                                      'same' if both_b[:8] == alone_b[:8] else 'DIFFERS',
+                                                      (both_a[8] + both_b[8])[:3])
     if cname != 'interleaved_live':
         return 'each association must behave exactly as when it runs alone on a fresh entity'
     a_tsf, ending, dt = args['a_tsf'], args['ending'], args['dt']
